@@ -62,6 +62,10 @@ func zzDo(w *zzWorld, op zzOp) (*ledger.Transaction, error) {
 			rs = zzScript(zzSendVarScript, map[string]string{"s": "a", "m": "USD/2 " + op.Amt.String()})
 		case "meta":
 			rs = zzScript(zzSendMetaScript, map[string]string{"m": "USD/2 " + op.Amt.String()})
+		case "all":
+			rs = zzScript("send [USD/2 *] (\n  source = @a\n  destination = @b\n)\n", map[string]string{})
+		case "allvar":
+			rs = zzScript("vars {\naccount $s\n}\nsend [USD/2 *] (\n  source = {\n    $s\n    @d\n  }\n  destination = @b\n)\n", map[string]string{"s": "a"})
 		default:
 			rs = zzScript(zzSendScript, map[string]string{"m": "USD/2 " + op.Amt.String()})
 		}
@@ -181,7 +185,7 @@ func zzCheckChain(st *zzStore, L, N *big.Int, prop string) {
 
 // ---------- C02 ----------
 
-var zzC02Shapes = [][]string{{"", ""}, {"var", "var"}, {"meta", "meta"}, {"", "meta"}, {"var", ""}, {"cancel", ""}, {"cancel", "cancel"}}
+var zzC02Shapes = [][]string{{"", ""}, {"var", "var"}, {"meta", "meta"}, {"", "meta"}, {"var", ""}, {"cancel", ""}, {"cancel", "cancel"}, {"all", "all"}, {"all", ""}, {"allvar", "all"}}
 
 func ZZ_C02N() int { return len(zzC02Shapes) }
 
@@ -344,6 +348,7 @@ func ZZ_C06(shape int) {
 	w, _, _, _, N := zzConcWorld(false)
 	if fault {
 		w.store.failNext = verifhook.Bool("insert_fails")
+		w.store.failClass = verifhook.Choose("insert_error", 3)
 		verifhook.ExpectPanic() // a failing InsertLogs stops the process by design
 	}
 	ops := make([]zzOp, len(kinds))
